@@ -54,14 +54,14 @@ CLAIMED["C07"] = dict(
          "every history of operations up to the bound; each is replayed with real executors in a process forked from a pristine parent, then five probe queries are "
          "translated and TLC requires each probe's normalised package to equal its fresh-process package.",
     design_ref="DESIGN.md section 5 C07, section 2.6",
-    note="Histories up to length 2 (quick, exhaustive: 2 071) / 3 (thorough, sampled beyond the cap) over 45 operations; five probes sensitive to method types, enums, "
+    note="Histories up to length 2 (quick, exhaustive: 2 071) / 3 (thorough, sampled beyond the cap) over 72 operations (6 metadata kinds incl. a declaration on a class with built-in default types x 4 outcomes x 3 executors); seven probes sensitive to method types, default types, enums, "
          "blocks, extended metadata, other backend; comparison after renaming generated identifiers.",
     technique="TLA+ spec Lifecycle + TLC history enumeration, replay in forked real processes, TLC trace validation (LifecycleTrace, memo form)",
 )
 
 CLAIMED["C08"] = dict(
     category="model_checking",
-    text="TLC enumerates base queries (exhaustively to the size bound, plus seeded -simulate derivations deep enough for shadowing to matter) and derives their "
+    text="TLC enumerates base queries (exhaustively to the size bound, plus seeded -simulate derivations deep enough for shadowing to matter, plus the written-out family spec/MCSiblings.tla of lambdas holding several sibling lambdas inside chained steps) and derives their "
          "variants: alpha-renamings from hostile name pools (kept only when de Bruijn forms agree), fused Where/Select chains, qastle wire format, MetaData "
          "outermost, call style. Base and variant are translated by the real code in fresh forks; TLC re-checks that each variant denotes the same rows and "
          "requires the name-normalised packages to be equal.",
@@ -109,11 +109,12 @@ CLAIMED["C16"] = dict(
 CLAIMED["C17"] = dict(
     category="model_checking",
     text="TLC enumerates every scenario of the LocalRun machine (file configurations, docker metadata, output directory, backend, translation outcome, container "
-         "outcome incl. failure after k output chunks and a missing result file) and checks the design-level ordering facts; each scenario is executed in a fresh "
+         "outcome incl. failure after k output chunks and a missing result file, and what the same dataset object executed before: nothing, a query with docker "
+         "metadata that ran, one that failed) and checks the design-level ordering facts; each scenario is executed in a fresh "
          "interpreter with the real LocalDataset classes against a stand-in python_on_whales; TLC (LocalRunTrace) validates exception-or-result, the docker.run "
          "arguments (image, command, mounts), filelist.txt, pre-flight errors before any container, and removal of the temporary directory.",
     design_ref="DESIGN.md section 5 C17, section 2.9",
-    note="All 576 scenarios; python_on_whales is a stand-in (harness/fake_pkgs), so docker itself is not exercised; TMPDIR is redirected to observe leftovers.",
+    note="All 2304 scenarios; python_on_whales is a stand-in (harness/fake_pkgs), so docker itself is not exercised; TMPDIR is redirected to observe leftovers.",
     technique="TLA+ spec LocalRun/LocalRunReq + TLC scenario enumeration, replay through the real LocalDataset with a stand-in docker, TLC trace validation (LocalRunTrace)",
 )
 
